@@ -129,6 +129,9 @@ class FnTranslator:
         self.spec = spec
         self.domain = domain
         self.ops = OPS[domain]
+        if spec.get("ops_override", {}).get(domain):
+            # e.g. {"Q": {"exp": "qexp_fast"}}: another spelling of an operator for one carrier
+            self.ops = dict(self.ops, **spec["ops_override"][domain])
         self.src = Source(repo, spec["file"])
         self.fn = self.src.find(spec["qual"])
         self.where = "%s:%s" % (spec["file"], spec["qual"])
@@ -563,7 +566,9 @@ class FnTranslator:
         return "(OkS %s)" % rec if self.has_raise else rec
 
     def block(self, stmts, env, rest):
-        """translate stmts followed by continuation rest(env) -> coq text"""
+        """translate stmts followed by continuation rest(env) -> coq text
+        (the signature is overridden by subclasses -- tools/stochnet_gen.py, tools/dump_tariffs.py --
+        so internal state such as the `if x is None` retry mode lives in self._if_mode, not in arguments)"""
         if not stmts:
             return rest(env)
         s, tail = stmts[0], stmts[1:]
@@ -662,15 +667,36 @@ class FnTranslator:
                 return '(ErrS "%s" %s)' % (name, self.record(env, self.default_ret()))
             return '(Err "%s")' % name
         if isinstance(s, ast.If):
+            # `if x is None: A else: B` / `if x is not None: A else: B` on an optional x -- two
+            # independent implementations are kept, each with the output format its users rely on:
+            #  * spec `narrow_if=True` (opt-in, C01/sim.py): always a `match`, the not-None branch
+            #    sees x unwrapped;
+            #  * otherwise (automatic, C03/C14 Battery.reset): first the plain translation (x stays
+            #    an option in both branches); only if that is refused, retry with x unwrapped in
+            #    the not-None branch (`match x with None => A | Some x' => B end`).
+            nt = self._none_test(s.test)
+            narrow_if = bool(self.spec.get("narrow_if"))
+            # self._if_mode[id(s)]: absent = not tried yet, None = plain attempt, True = unwrapped attempt
+            if_mode = self.__dict__.setdefault("_if_mode", {})
+            unwrap = if_mode.get(id(s), False)
+            if nt is not None and not narrow_if and unwrap is False:
+                snap = (dict(self.params), dict(self.extra), dict(self.fresh))
+                try:
+                    if_mode[id(s)] = None
+                    try:
+                        return self.block(stmts, env, rest)
+                    except Untranslatable:
+                        self.params, self.extra, self.fresh = snap
+                        if_mode[id(s)] = True
+                        return self.block(stmts, env, rest)
+                finally:
+                    del if_mode[id(s)]
             c, tc = self.expr(s.test, env)
             if tc != "bool":
                 self.err(s, "non-boolean if test: %s" % self.txt(s.test))
             narrow = None
             cond = lambda a, b: "(if %s then\n%s\nelse\n%s)" % (c, a, b)
-            nt = self._none_test(s.test)
-            if nt is not None and self.spec.get("narrow_if"):
-                # additive extension (opt-in): `if x is None: A else: B` on an optional x becomes a
-                # `match`, and B (or A for `is not None`) sees x unwrapped
+            if nt is not None and narrow_if:
                 xnode, is_none = nt
                 xs, tx = self.expr(xnode, env)
                 if tx.startswith("opt"):
@@ -680,8 +706,21 @@ class FnTranslator:
                         cond = lambda a, b: "(match %s with None =>\n%s\n| Some %s =>\n%s end)" % (xs, a, inner, b)
                     else:
                         cond = lambda a, b: "(match %s with None =>\n%s\n| Some %s =>\n%s end)" % (xs, b, inner, a)
+            elif nt is not None and unwrap is True:
+                xnode, is_none = nt
+                xs, tx = self.expr(xnode, env)
+                if not tx.startswith("opt"):
+                    self.err(s, "`is None` on a non-optional (%s)" % self.txt(xnode))
+                inner = self.newname(self.txt(xnode))
+                narrow = ("else" if is_none else "body", self.txt(xnode), (inner, "num"))
+                if is_none:
+                    cond = lambda a, b: "(match %s with None =>\n%s\n| Some %s =>\n%s\nend)" % (xs, a, inner, b)
+                else:
+                    cond = lambda a, b: "(match %s with Some %s =>\n%s\n| None =>\n%s\nend)" % (xs, inner, a, b)
 
             def branch_envs(e):
+                # (env of the body, env of the else branch): copies of the *current* env (so a
+                # freshly initialised "$effects" is seen) with x unwrapped in the not-None branch
                 eb = ee = e
                 if narrow is not None:
                     en = dict(e)
@@ -869,7 +908,12 @@ def translate_group(repo, specs, domain):
             spec["file"], spec["qual"] + (" @ " + spec["expr_path"] if "expr_path" in spec else ""),
             info["line"], info["end_line"], text))
         infos.append(info)
-    return HEADERS[domain] + "\n" + "\n".join(texts), infos
+    extra = []
+    for spec in specs:      # optional per-anchor imports, e.g. {"Q": "From ACN Require Import Base.QExp."}
+        imp = spec.get("imports", {}).get(domain)
+        if imp and imp not in extra:
+            extra.append(imp)
+    return HEADERS[domain] + "".join(e.rstrip("\n") + "\n" for e in extra) + "\n" + "\n".join(texts), infos
 
 
 # ---------------------------------------------------------------------------------------------
